@@ -274,6 +274,9 @@ var c06Hand = []string{
 	// one pattern under rejected and accepted flag sets: what is kept for the pattern must not decide whether the flags are looked at
 	"\"abc\" | [(try test(\"b\"; \"x\") catch \"E\"), test(\"b\"), (try test(\"b\"; \"gx\") catch \"E\"), test(\"b\"; \"g\"), (try test(\"b\"; \"n\") catch \"E\")]", "\"aXb\" | [(try [match(\"x\"; \"ix\")] catch \"E\"), [match(\"x\"; \"i\").offset], (try sub(\"x\"; \"_\"; \"q\") catch \"E\"), sub(\"x\"; \"_\"; \"i\")]",
 	"[.. | strings | (try test(\"a\"; \"z\") catch \"E\"), test(\"a\")]",
+	// builtins applied to the arrays of the (shared) input themselves, not to copies: they must only read them
+	"[.. | arrays | (join(\"-\")?, map(type))]", ".a | join(\",\")?", ".[0] | join(\"\")?", "[.. | arrays | join(\"-\")?] | length, ([.. | numbers] | add)", "[.. | arrays | join(\",\")?], [.. | scalars | type]",
+	"[.. | arrays | (add?, (min_by(.)?), (unique_by(.)?), (sort_by(.)?), (group_by(.)?), flatten, tojson, (@csv?), (@tsv?), (@sh?), (transpose?), reverse, to_entries, indices(1), index(1), (inside([1])?), (contains([1])?), any, all, ([tostream] | length), (implode?), (@json), (@html?), (tostring), (map(tostring) | join(\"\")), (first?), (last?), (.[1:] | join(\"/\")?), (sort?), (unique?), (min?), (max?), ([limit(2; .[])]), ([combinations?] | length), (to_entries | from_entries?), (with_entries(.)?), (ltrimstr(\"a\")?), (splits(\"a\")?), (@base64?), (@uri?), (getpath([0])?), ([paths] | length), (tojson | fromjson), (walk(.)), (del(.[0])), (.[0] = 9), (. + [1]), (. - [1]), (map(.)), (map_values(.)), (bsearch(1)?), (flatten(1)?), (range(length)), (has(0)), (keys), (length), (not), (type), (env | type))] | length",
 	// tables a Code fills on first use
 	"builtins | length", "[builtins] | .[0] | sort == .", "builtins | map(select(startswith(\"a\"))) | length", "[builtins, builtins] | .[0] == .[1]", "[.. | strings | test(\"a\"), test(\"b\"; \"i\"), test(\"c\"; \"g\")]", "[limit(5; builtins[])]", "env | type", "$ENV | type",
 	"[getpath([\"a\", \"b\"]), getpath([\"c\", 1])]", "[first(range(10)), last(range(10)), nth(3; range(10)), limit(2; range(10))]", "[splits(\"a\")?, ascii_downcase?, ltrimstr(\"a\")?, @base64?, @uri?, @html?, @sh?, @csv?, @tsv?, @json, @text]", "todate?, (now | type)", "input_line_number",
